@@ -330,6 +330,10 @@ impl ConnectionPool {
                     .as_ref()
                     .map(|pool| (pool.paused.clone(), pool.paused_waiter.clone()));
 
+                // Bans are about the servers, not about the pool object: they are carried
+                // over to the servers the rebuilt pool still has.
+                let old_bans = old_pool_ref.as_ref().map(|pool| pool.banlist.read().clone());
+
                 if let Some(pool) = old_pool_ref {
                     // If the pool hasn't changed, get existing reference and insert it into the new_pools.
                     // We replace all pools at the end, but if the reference is kept, the pool won't get re-created (bb8).
@@ -538,6 +542,24 @@ impl ConnectionPool {
                         "Auth hash obtained from query_auth for pool {{ name: {}, user: {} }}",
                         pool_name, user.username
                     );
+                }
+
+                if let Some(old_bans) = old_bans {
+                    for (shard_index, shard_bans) in old_bans.iter().enumerate() {
+                        for (old_address, ban) in shard_bans {
+                            let still_there = addresses.get(shard_index).and_then(|shard| {
+                                shard.iter().find(|address: &&Address| {
+                                    address.host == old_address.host
+                                        && address.port == old_address.port
+                                        && address.role == old_address.role
+                                })
+                            });
+
+                            if let Some(address) = still_there {
+                                banlist[shard_index].insert(address.clone(), ban.clone());
+                            }
+                        }
+                    }
                 }
 
                 let pool = ConnectionPool {
